@@ -364,7 +364,7 @@ def _judge(res, solver, dem, fits, opt, obs, tag, gap=None):
             return
     obs.event("c17.objective.checked")
     obj = res.objective
-    if not isinstance(obj, (int, float)) or abs(obj - total) > 1e-6:
+    if not isinstance(obj, (int, float)) or obj != total:  # a count: 6.999999999999999 is not 7 (int() of it is 6)
         obs.violate("c17.objective-mismatch", f"{tag}: objective {obj!r}, plan uses {total} rolls; plan={plan}")
         return
     if opt == "guard" or opt is None:
